@@ -12,7 +12,7 @@ vars == <<p, ob, since, armed, junk, cmds, autoStopped, frozenBad>>
 
 \* scaled constants: classes stay disjoint under the tolerance 2*max(step)-1 = 3
 K == [pilot |-> 12, hdrPulses |-> 4, dataPulses |-> 3, sync1 |-> 4, sync2 |-> 8, bit0 |-> 16, bit1 |-> 20,
-      pauseLen |-> 30, pauseMin |-> 30, pauseMax |-> 33, tol |-> 3, bits |-> 2]
+      pauseLen |-> 30, pauseMin |-> 30, pauseMax |-> 33, tol |-> 3, bits |-> 2, slack |-> 0]
 Tapes == << << <<0, 1>>, <<3, 2>> >>,      \* header-type block then data block
             << <<2, 1, 3>> >>,
             << <<0, 3>>, <<0, 0>>, <<1, 2>> >> >>
